@@ -476,7 +476,7 @@ func init() {
 						continue
 					}
 					for _, dd := range dds {
-						if !d.Thorough() && (k+dd)%3 != 0 {
+						if !d.Thorough() && (k+dd)%3 != 0 && !(dy == 0 && dm == 0) && !(dm == 0 && dd == 0) && !(dy == 0 && dd == 0) {
 							continue
 						}
 						d.Do(Ev{"op": "date.add", "a": a, "dy": dy, "dm": dm, "dd": dd})
@@ -487,6 +487,32 @@ func init() {
 		}
 		for i := 0; i < nr/d.NShards; i++ {
 			d.Do(Ev{"op": "date.add", "a": rd(), "dy": d.R.Intn(201) - 100, "dm": d.R.Intn(401) - 200, "dd": d.R.Intn(20001) - 10000})
+			d.S.Boundary()
+		}
+		// single-component steps from every month end / leap-day neighbourhood of the boundary years
+		for yi, y := range boundaryYears {
+			if !d.Mine(yi) {
+				continue
+			}
+			for m := 1; m <= 12; m++ {
+				for _, dd := range []int{1, 2, 27, 28, 29, 30, 31} {
+					if dd > daysIn(y, m) {
+						continue
+					}
+					a := []int{y, m, dd}
+					for n := -4; n <= 4; n++ {
+						d.Do(Ev{"op": "date.add", "a": a, "dy": 0, "dm": 0, "dd": n})
+					}
+					for _, n := range []int{-12, -1, 1, 12} {
+						d.Do(Ev{"op": "date.add", "a": a, "dy": 0, "dm": n, "dd": 0})
+					}
+					for _, n := range []int{-100, -4, -1, 1, 4, 100} {
+						if y+n >= 0 && y+n <= 9999 {
+							d.Do(Ev{"op": "date.add", "a": a, "dy": n, "dm": 0, "dd": 0})
+						}
+					}
+				}
+			}
 			d.S.Boundary()
 		}
 		// (4) AddDuration around multiples of 24h
